@@ -196,11 +196,36 @@ func arrParts(s string) (string, string) {
 func arrElem(s string) string { _, e := arrParts(s); return e }
 func arrIdx(s string) string  { i, _ := arrParts(s); return i }
 
+// i2bArg returns X when t is (i2b_W X).
+func i2bArg(t Term) string {
+	if !strings.HasPrefix(t.S, "(i2b_") {
+		return ""
+	}
+	i := strings.Index(t.S, " ")
+	if i < 0 {
+		return ""
+	}
+	return t.S[i+1 : len(t.S)-1]
+}
+
 func isZeroBV(t Term) bool { return strings.HasPrefix(t.S, "(_ bv0 ") }
 
 func BVOp(op string, a, b Term) Term {
 	if a.Sort != b.Sort {
 		panic(fmt.Sprintf("BVOp %s sort mismatch: %s:%s vs %s:%s", op, a.S, a.Sort, b.S, b.Sort))
+	}
+	// int2bv is a ring homomorphism: combine conversions eagerly so that the solvers see
+	// (i2b (a - b)) instead of having to instantiate the homomorphism axiom
+	if op == "bvadd" || op == "bvsub" {
+		pa, pb := i2bArg(a), i2bArg(b)
+		if pa != "" && pb != "" {
+			o := "+"
+			if op == "bvsub" {
+				o = "-"
+			}
+			w := sortWidth(a.Sort)
+			return Term{fmt.Sprintf("(i2b_%d (%s %s %s))", w, o, pa, pb), a.Sort}
+		}
 	}
 	switch op {
 	case "bvadd":
@@ -511,8 +536,7 @@ func Int2BV(x Term, w int) Term {
 	if v, ok := isIntLit(x); ok {
 		return BV(v, w)
 	}
-	m := IntBig(new(big.Int).Lsh(big.NewInt(1), uint(w)))
-	return app(BVSort(w), fmt.Sprintf("i2b_%d", w), app(SInt, "mod", x, m))
+	return app(BVSort(w), fmt.Sprintf("i2b_%d", w), x)
 }
 
 var bvLitRe = regexp.MustCompile(`\(_ bv([0-9]+) ([0-9]+)\)`)
@@ -530,8 +554,14 @@ func bridgePrelude(body string) string {
 		lim := new(big.Int).Lsh(big.NewInt(1), uint(w)).String()
 		fmt.Fprintf(&sb, "(declare-fun %s (%s) Int)\n(declare-fun %s (Int) %s)\n", b2i, srt, i2b, srt)
 		fmt.Fprintf(&sb, "(assert (forall ((x %s)) (! (and (<= 0 (%s x)) (< (%s x) %s) (= (%s (%s x)) x)) :pattern ((%s x)))))\n", srt, b2i, b2i, lim, i2b, b2i, b2i)
-		fmt.Fprintf(&sb, "(assert (forall ((i Int)) (! (=> (and (<= 0 i) (< i %s)) (= (%s (%s i)) i)) :pattern ((%s i)))))\n", lim, b2i, i2b, i2b)
+		fmt.Fprintf(&sb, "(assert (forall ((i Int)) (! (= (%s (%s i)) (mod i %s)) :pattern ((%s (%s i))))))\n", b2i, i2b, lim, b2i, i2b)
 		fmt.Fprintf(&sb, "(assert (forall ((x %s) (y %s)) (! (= (bvult x y) (< (%s x) (%s y))) :pattern ((%s x) (%s y)))))\n", srt, srt, b2i, b2i, b2i, b2i)
+		if strings.Contains(body, "("+i2b+" ") {
+			for _, op := range [][2]string{{"bvsub", "-"}, {"bvadd", "+"}} {
+				fmt.Fprintf(&sb, "(assert (forall ((a Int) (b Int)) (! (= (%s (%s a) (%s b)) (%s (%s a b))) :pattern ((%s (%s a) (%s b))))))\n",
+					op[0], i2b, i2b, i2b, op[1], op[0], i2b, i2b)
+			}
+		}
 		seen := map[string]bool{}
 		for _, m := range bvLitRe.FindAllStringSubmatch(body, -1) {
 			if m[2] != fmt.Sprint(w) || seen[m[1]] {
